@@ -19,7 +19,7 @@ PROPS['C19'] = dict(
          'overlapping keys/values; distinct = by hash of the case line',
     trusted_base=['modelled, not verified: slice::binary_search_by_key on sorted input, SmallVec, derived Hash/Ord/Eq of (u32,u32) vectors'],
     assumptions=COMMON_ASSUME + ['default feature set (the `checks` feature turns several non-bijective inputs into asserts; those are exercised under C08)'],
-    pending_theorems=['refinement theorem for bijection_from_fresh_to (covered by correspondence only)'],
+    pending_theorems=[],
 )
 
 PROPS['C17'] = dict(
